@@ -78,6 +78,7 @@ let show_out f = function
   | ORet a -> "ok:" ^ f a
   | OFail e -> terrs e
   | OSpin -> "spin"
+  | OOutOfFuel -> "outoffuel"
 let vals l = String.concat "," (List.map show_v l)
 
 let run_tab (op : string) (toks : string list) : string * string =
@@ -118,7 +119,7 @@ let run_tab (op : string) (toks : string list) : string * string =
   | "move" ->
     let f, e, t = (match args with f :: e :: t :: _ -> arg_i f, arg_i e, arg_i t | _ -> failwith "move args") in
     im (fun () -> "") (move_im f e t (if same then T1 else T2)),
-    (if move_ok f e t then
+    (if move_ok same f e t then
        (if same then sres "ok:" (move_spec m1 m1 f e t) m2 else sres "ok:" m1 (move_spec m1 m2 f e t))
      else sres "err:" m1 m2)
   | "unpack" ->
@@ -128,7 +129,7 @@ let run_tab (op : string) (toks : string list) : string * string =
   | "concat" ->
     let sep = (match args with a :: _ when a <> "n" -> Some (arg_s a) | _ -> None) in
     let i = (match oi 1 with Some i -> i | None -> z_of_int 1) and j = (match oi 2 with Some j -> j | None -> l1) in
-    im vs (concat_im sep (oi 1) (oi 2)),
+    im vs (concat_im (nat_of_int 3000) sep (oi 1) (oi 2)),
     (if small i j then
        (match concat_spec m1 (match sep with Some s -> s | None -> []) i j with
         | Inl b -> sres ("ok:" ^ vs b) m1 m2
